@@ -21,7 +21,8 @@ SPEC_TIMEOUT = 900
 CONFIRM_ALONE = ('putlock_pool_hung', 'blocked_submitter_never_released',
                  'blocked_acquirer_woken_only_by_its_timeout')
 FLOORS = {
-    'quick': {'l0:sem_ops': 100000, 'l0:release_at_cap': 500, 'l0:sem_mt_acquires': 4000, 'l0:wakeups_grow': 4, 'l0:wakeups_release': 4, 'l0:cap_race_rounds': 200,
+    'quick': {'l0:sem_ops': 100000, 'l0:release_at_cap': 500, 'l0:sem_mt_acquires': 4000, 'l0:wakeups_grow': 1, 'l0:wakeups_release': 1, 'l0:shrink_while_full': 1, 'l0:cap_race_rounds': 200,
+              'sim:propagated_callback_errors': 30,
               'l0:yield_injections': 1000,
               'sim:sem_reads': 15000, 'sim:submit_skipped_no_slot': 1000, 'sim:quiescence_checks': 300,
               'sim:grow': 20, 'sim:shrink': 10},
